@@ -25,7 +25,9 @@ RULE = ("simulated genuine devices with real keys: Ledger (root, device, endorse
         "certificates + root, QE report, quote envelope with QE auth data 0..1000 bytes, PEM chains of 2..3 "
         "certificates, message / envelope pages) through the real admin.sgx_attestation.do_attestation and verify; "
         "then every single-point alteration class of the device's answers (a byte of a signed message, of a "
-        "signature, of a certificate, another root).  non-trivial = the gathering command reached the device")
+        "signature, of a certificate, another root); plus the root of trust / chain certificates read from PEM text "
+        "(admin.attestation_utils.get_root_of_trust on a file): DER-shaped bytes of every length residue so that the "
+        "base64 body ends in every alphabet character, line widths 1..4096, LF / CRLF / blank lines.  non-trivial = the gathering command reached the device")
 ASSUMPTIONS = ["'any alteration makes gathering or verification fail' rests on ECDSA/SHA-2 unforgeability: exercised "
                "with real keys (a test), not proved", "the attestation part of do_onboard is exercised through the "
                "DongleAdmin calls it makes and its certificate assembly, not through the interactive onboarding"]
@@ -169,7 +171,44 @@ def _silence():
     return contextlib.redirect_stdout(io.StringIO())
 
 
+def pem_text(rng, der):
+    import base64
+    body = base64.b64encode(der).decode()
+    w = rng.choice([64, 64, 64, 76, 1, 7, 4096])
+    nl = rng.choice(["\n", "\n", "\r\n", "\n\n", " \n", "\t\n"])
+    lines = [body[i:i + w] for i in range(0, len(body), w)]
+    return (rng.choice(["", "", "\n", "  "]) + "-----BEGIN CERTIFICATE-----" + nl + nl.join(lines)
+            + (nl if lines else "") + "-----END CERTIFICATE-----" + rng.choice(["\n", "", "\r\n", "\n\n"]))
+
+
+def pem_case(rng, n=None):
+    """DER-shaped bytes (a SEQUENCE header followed by random content) of every residue modulo 3, so that the
+    base64 body ends in every alphabet character, with and without padding"""
+    n = rng.choice([0, 1, 2, 3, 30, 299, 300, 301, 600, 601, 602, rng.randrange(1, 1200)]) if n is None else n
+    body = bytes(rng.getrandbits(8) for _ in range(n))
+    der = (b"\x30\x82" + len(body).to_bytes(2, "big") + body) if rng.random() < 0.8 else body
+    return Case("pem", {"text": pem_text(rng, der), "der": der.hex()}, stream="pem")
+
+
+def run_pem(inp):
+    import os as _os
+    import tempfile as _tf
+    from admin.attestation_utils import get_root_of_trust
+    fd, path = _tf.mkstemp(prefix="verif-c15-", suffix=".pem")
+    try:
+        with _os.fdopen(fd, "w", newline="") as f:
+            f.write(inp["text"])
+        try:
+            return get_root_of_trust(path)._message.hex()
+        except ValueError:
+            return "error"
+    finally:
+        _os.unlink(path)
+
+
 def run_impl(op, inp):
+    if op == "pem":
+        return run_pem(inp)
     import logging
     import random
     logging.disable(logging.CRITICAL)
@@ -389,6 +428,9 @@ def gen(tier, rng):
             out.append(ledger_case(rng, a))
         for a in S_ALTER:
             out.append(sgx_case(rng, a))
+    # the root of trust / chain certificates as read from PEM text (every last base64 character)
+    for i in range(400 if tier == "quick" else 20000):
+        out.append(pem_case(rng))
     return out
 
 
